@@ -105,6 +105,17 @@ def group_scenarios(rng, tier):
             perms = perms[:6]
         out.append({"kind": "use" if bound != "macro_use" else "extern", "names": names,
                     "perms": perms, "bound": bound})
+    # the boundaries of mod / extern crate runs hold under every group_imports setting (the
+    # option regroups `use` declarations only)
+    for kind in ("mod", "extern"):
+        for bound in ("blank", "item"):
+            for gi in ("Preserve", "StdExternalCrate", "One"):
+                perms = [p for p in itertools.permutations(range(4))]
+                if tier == "quick":
+                    rng.shuffle(perms)
+                    perms = perms[:5]
+                out.append({"kind": kind, "names": ["d", "c", "b", "a"], "perms": perms,
+                            "bound": bound, "opts": {"group_imports": gi}})
     # large groups with ties (alias twins and attribute twins), several shuffles
     for size in ((24, 33) if tier == "quick" else (21, 24, 27, 33, 41, 64)):
         names = [f"p{k:02d}::q" for k in range(size - 4)]
@@ -200,7 +211,8 @@ def run(tier, seed, replay=None):
             for se in ("2015", "2024"):
                 for perm in scn["perms"]:
                     jobs.append({"id": len(jobs), "src": render_group(scn, perm),
-                                 "opts": {"style_edition": se, "skip_children": True},
+                                 "opts": dict(scn.get("opts", {}), style_edition=se,
+                                              skip_children=True),
                                  "want": ["out"]})
                     jmeta.append((si, se, perm))
         results = ucore.run_jobs(jobs, sc)
